@@ -186,6 +186,10 @@ func runReCase(t ev.Failer, c *ev.Collector, rc reCase) (labels map[string]bool)
 							leftover = true
 							// let the old process finish its rewrite on the old directory and discard it
 							arm(false)
+							// the abandoned process must not feed stage events into this case any more
+							// (its "ended" could be taken for the next round's, leaving the new server
+							// parked inside its swap with the lock held)
+							verifhook.Unregister(dir)
 							close(e.release)
 							cs.Close()
 							old := S
